@@ -69,14 +69,42 @@ def oracle(c, it):
     return None
 
 
+def post(all_results, run_impl, rng, tier, stats):
+    """how many of the cases the refinement theorem covers (fragment configuration as the real parser produced it,
+    covered history), and the driver's consistency check model-vs-spec on them"""
+    stats['refinement_theorem_applies'] = 0
+    stats['refinement_cfg_in_fragment'] = 0
+    out = []
+    for c, it, mt in all_results:
+        for l in (mt or []):
+            if l.startswith('INFO frag='):
+                if 'frag=1' in l:
+                    stats['refinement_cfg_in_fragment'] += 1
+                if 'spec=agree' in l:
+                    stats['refinement_theorem_applies'] += 1
+                if 'DISAGREE' in l:
+                    out.append((c, it, mt, 'the extracted layered-keymap spec and the extracted layout model disagree on a case the '
+                                           'refinement theorem covers (extraction / driver inconsistency)'))
+    lsim = [1 for c, it, mt in all_results if c.get('sub', 'lsim') == 'lsim' and (c.get('tags') or {}).get('mode') != 'burst'
+            and it and not it[0].startswith('PARSE-')]
+    if lsim and stats['refinement_theorem_applies'] < len(lsim) // 2:
+        raise RuntimeError('the refinement theorem applied to only %d of %d fragment cases: generator and frag_cfg drifted apart'
+                           % (stats['refinement_theorem_applies'], len(lsim)))
+    return out
+
+
 SPEC = {
     'oracle': oracle,
+    'post': post,
     'id': 'C04',
     'sub': 'lsim',
     'gen_cases': gen_cases,
     'nontrivial': trace_has_output,
     'rule': 'random configs of the C04 fragment (1-4 layers, 2-6 keys, all option combinations) x consistent histories with gaps '
             '{0,1,2,7} plus no-tick bursts around the 32-slot queue; non-trivial = distinct (config, implementation trace) with at least one key-state change',
-    'explanation': 'theorems on the Gallina layout model (FIFO below 32, release removes exactly the coordinate, first-non-transparent '
-                   'resolution, search order); model tied to keyberon::Layout by differential execution on the parsed configuration',
+    'explanation': 'refinement theorem C04_refines_layered_keymap: for every fragment configuration and every covered history the Gallina '
+                   'layout model outputs exactly the key lists of the layered-keymap spec (Spec/Keymap.v); plus the decision-rule theorems '
+                   '(FIFO below 32, release removes exactly the coordinate, first-non-transparent resolution, search order); model tied to '
+                   'keyberon::Layout by differential execution on the parsed configuration; correspondence.refinement_theorem_applies counts '
+                   'the cases whose parsed configuration satisfies frag_cfg and whose history satisfies hist_ok',
 }
